@@ -51,10 +51,18 @@ func init() {
 	}
 }
 
+// obligationOnly: properties that reuse the evaluation templates for their
+// implicit obligations only (no panic, frame, JSON invariant); the value /
+// error-ness comparison with the oracle is not theirs and must stay inactive.
+var obligationOnly = map[string]bool{"C05": true, "C06": true, "C12": true, "C16": true}
+
 func evalJobs(prop string, ts []tmpl, depth, W, S int, keys []string) []*Job {
 	var out []*Job
 	for _, t := range ts {
 		j := t.job(prop, depth)
+		if obligationOnly[prop] {
+			j.Params["prop"] = "ORACLE-NOT-CLAIMED-HERE"
+		}
 		j.W, j.S, j.Keys = W, S, keys
 		j.WitEvery = 60
 		out = append(out, j)
